@@ -24,6 +24,18 @@ PSimProposal ==
           /\ Publish(Me, HandleProposal(ns[Me], p, Keys(p.blk) \subseteq have), PCause(p))
           /\ trace' = Append(trace, [a |-> "Proposal", blk |-> p.blk, tc |-> p.tc, avail |-> FALSE])
           /\ UNCHANGED have
+\* a proposal by an authority that is NOT the leader of its round, carrying batches the node lacks; the batches arrive right afterwards.
+\* The node rejects it (WrongLeader) before anything else, so nothing may wait for those batches and nothing is voted.
+PSimWrongLeader ==
+  /\ Cur >= 1 /\ Cur <= MaxRound /\ Variants \ {0} # {} /\ Node \ {Leader(Cur), Me} # {}
+  /\ \E k \in {Pick(Recent)}, a \in {Pick(Node \ {Leader(Cur), Me})}, v \in {Pick(Variants \ {0})} :
+       LET p == [blk |-> <<Cur, a, v, k>>, tc |-> NoTC]
+           arrivals == [i \in 1..v |-> [a |-> "Batch", round |-> Cur, k |-> i]] IN
+       /\ Rnd(k) < Cur
+       /\ p.blk \notin ns[Me].stored
+       /\ Publish(Me, HandleProposal(ns[Me], p, FALSE), NoCause)
+       /\ trace' = Append(trace, [a |-> "Proposal", blk |-> p.blk, tc |-> p.tc, avail |-> FALSE]) \o arrivals
+       /\ have' = have \cup Keys(p.blk)
 WantedKeys == UNION {Keys(p.blk) : p \in ns[Me].pwait} \ have
 PBatch ==
   /\ WantedKeys # {}
@@ -31,7 +43,7 @@ PBatch ==
        /\ have' = have \cup {key}
        /\ trace' = Append(trace, [a |-> "Batch", round |-> key[1], k |-> key[2]])
        /\ UNCHANGED vars
-PExternal == \/ PSimProposal \/ PSimProposal \/ PBatch \/ PBatch
+PExternal == \/ PSimProposal \/ PSimProposal \/ PBatch \/ PBatch \/ PSimWrongLeader
              \/ (SimTC /\ UNCHANGED have) \/ (SimTimer /\ UNCHANGED have) \/ (SimVote /\ UNCHANGED have) \/ (SimTimeout /\ UNCHANGED have)
 PSNext == IF PInternalEnabled THEN PInternal /\ UNCHANGED <<trace, have>> ELSE PExternal
 PSSpec == PSInit /\ [][PSNext]_psvars
